@@ -101,9 +101,10 @@ func thrModel(t int) porcupine.Model {
 					return same(!o.B1 && o.Err == "invalid-inputs")
 				}
 				if has {
-					// documented: duplicated-signer; if enough shares were also already collected the
-					// documentation leaves the precedence open: (true, nil) accepted as well
-					return same((!o.B1 && o.Err == "duplicated-signer") || (enough && o.B1 && o.Err == ""))
+					// documented: (true, nil) "if enough signature shares were already collected and no error
+					// occurred", (false, duplicatedSignerError) if the index was previously added: an error
+					// condition takes precedence
+					return same(!o.B1 && o.Err == "duplicated-signer")
 				}
 				if enough {
 					return same(o.B1 && o.Err == "")
@@ -120,7 +121,7 @@ func thrModel(t int) porcupine.Model {
 				}
 				v := i.Cls == "V"
 				if has {
-					return same((!o.B1 && !o.B2 && o.Err == "duplicated-signer") || (enough && o.B1 == v && o.B2 && o.Err == ""))
+					return same(!o.B1 && !o.B2 && o.Err == "duplicated-signer")
 				}
 				if !v || enough {
 					return same(o.B1 == v && o.B2 == enough && o.Err == "")
@@ -588,7 +589,7 @@ func raceChild(run *mon.Run, name string, timeout time.Duration, env ...string) 
 // C18: linearizability of the stateful threshold object.
 func C18(run *mon.Run) {
 	run.Rule = "many short concurrent histories (2-8 goroutines x 3-6 operations over all eight methods, valid / wrong / malformed / wrong-length / duplicate shares, in- and out-of-range indices, biased to the t+1 boundary) on one inspector or participant, recorded with an atomic logical clock and checked by porcupine against the documented sequential semantics; direct monitors for EnoughShares monotonicity, signature stability and <= t+1 retained shares; GOMAXPROCS in {1,2,4,16} with Gosched jitter; the same workload under the race detector; shape = (n, #clients, #ops bucket, #overlapping mutator pairs, #retained)"
-	run.Assumptions = []string{"interleavings are those the Go scheduler produced; absence of a bad history is not a proof", "where the documentation leaves the precedence of duplicated-signer vs already-enough open, both results are accepted"}
+	run.Assumptions = []string{"interleavings are those the Go scheduler produced; absence of a bad history is not a proof", "a duplicate signer is reported as duplicatedSignerError also when enough shares were already collected ((true, nil) is documented for enough shares AND no error occurred)"}
 	// both legs run in child processes: a missing lock shows as a process-fatal
 	// "concurrent map writes" in the plain build and as race reports in the -race build
 	run.RunChild(os.Getenv("VERIF_BIN"), "c18core", "default", 40*time.Minute)
